@@ -82,6 +82,16 @@ UNI_LOWER_METHODS = ["日本", "écrire"]
 UNI_PARAM_NAMES = ["größe", "名", "é", "Ünï", "x世"]
 UNI_ALIASES = ["démo", "Über-kurz", "Étape", "世界"]
 
+# spellings that coincide (up to letter case) with something the command line already knows: mage's commands
+# and flags (-h -l -v -t -f -d -w -debug -compile -keep -gocmd -goos -goarch -ldflags -init -clean -version),
+# "help", the program's own name, main, and the magic variables Default / Aliases (these two only where Go
+# allows them next to the variables: as methods and alias keys)
+CLI_FUNC_NAMES = ["Help", "Version", "Init", "Clean", "List", "L", "H", "V", "T", "F", "D", "W", "Debug", "Compile", "Keep",
+                  "Gocmd", "Goos", "Goarch", "Ldflags", "Timeout", "Force", "Mage", "Main", "Verbose"]
+CLI_NS_NAMES = ["Help", "Mage", "Main", "Init", "Compile", "L", "H", "Version", "Clean"]
+CLI_METHOD_NAMES = ["Help", "Default", "Aliases", "Version", "Init", "List", "L", "H", "Main", "Clean", "Compile"]
+CLI_ALIASES = ["help", "version", "init", "clean", "list", "l", "h", "v", "t", "default", "aliases", "mage", "main", "Help"]
+
 _UNI = {}        # string -> {"exported", "lower", "safe"}: Go's own answers (harness/docview), set by the check
 
 
@@ -280,14 +290,17 @@ def on_generic(pkg, f):
     return bool(f["recv"]) and any(t.get("tparams") for t in pkg["types"] if t["name"] == f["recv"][0])
 
 
-def gen_package(rng, size=None, simple=False, unicode=None):
+def gen_package(rng, size=None, simple=False, unicode=None, cli=None):
     """simple: a few valid targets over string/int/bool only (base of the separate finding streams);
     unicode: draw identifiers from the non-ASCII pools too (None: one package in four)"""
     if unicode is None:
         unicode = rng.choice([False] * 6 + [True, "safe"]) if not simple else False
     # "safe": only spellings on which the ASCII model is Go (no non-ASCII capitals; see model_safe)
     keep = (lambda n: model_safe(n)) if unicode == "safe" else (lambda n: True)
-    uni = (lambda pool, extra: pool + [n for n in extra if keep(n)] * 3) if unicode else (lambda pool, extra: pool)
+    if cli is None:
+        cli = (not simple) and rng.random() < 0.2
+    clipool = {id(FUNC_NAMES): CLI_FUNC_NAMES, id(NS_NAMES): CLI_NS_NAMES, id(METHOD_NAMES): CLI_METHOD_NAMES} if cli else {}
+    uni = lambda pool, extra: pool + ([n for n in extra if keep(n)] * 3 if unicode else []) + clipool.get(id(pool), []) * 2
     _UNI_PARAMS[0] = bool(unicode)
     nfiles = 1 if simple else rng.choice([1, 1, 2, 2, 3])
     size = size or rng.choice([2, 4, 6, 8, 10, 14])
@@ -302,7 +315,8 @@ def gen_package(rng, size=None, simple=False, unicode=None):
         taken.add(go_lower(n))
         return n
 
-    for n in ("default", "aliases", "local", "ctx", "main", "init", "probe", "mg", "alt", "conf", "duration", "context"):
+    # ("main" and "init" themselves are never generated; Main / Init are ordinary exported identifiers)
+    for n in ("default", "aliases", "local", "ctx", "probe", "mg", "alt", "conf", "duration", "context"):
         taken.add(n)
     fileof = lambda: rng.randrange(nfiles)
     # types
@@ -432,7 +446,14 @@ def gen_package(rng, size=None, simple=False, unicode=None):
     # aliases
     if refable and rng.random() < 0.4:
         kvs = []
-        for a in rng.sample(["al1", "b2", "zz", "Short", "x-y"] + ([n for n in UNI_ALIASES if keep(n)] if unicode else []), rng.choice([1, 2, 3])):
+        keys = {go_lower(oracle_key(f)) for f in valid}
+        apool = [a for a in ["al1", "b2", "zz", "Short", "x-y"] + ([n for n in UNI_ALIASES if keep(n)] if unicode else []) + (CLI_ALIASES * 2 if cli else [])
+                 if go_lower(a) not in keys]
+        chosen = []
+        for a in rng.sample(apool, min(len(apool), rng.choice([1, 2, 3]))):
+            if go_lower(a) not in {go_lower(x) for x in chosen}:
+                chosen.append(a)
+        for a in chosen:
             kvs.append([a, ref_of(rng.choice(refable))])
         pkg["vars"].append({"file": fileof(), "paren": False, "specs": [{"names": ["Aliases"], "values": [{"map": kvs}]}]})
     # harmless helper identifiers
@@ -444,6 +465,24 @@ def gen_package(rng, size=None, simple=False, unicode=None):
 
 
 # ---------------------------------------------------------------- the separate streams
+def gen_cli_words(rng, force=None):
+    """a package whose targets are spelled like words the command line knows; `force`: that function exists"""
+    pkg = gen_package(rng, cli=True, unicode=False)
+    names = [force] if force else []
+    names += rng.sample(CLI_FUNC_NAMES, 2)
+    for nm in names:
+        have = {go_lower(f["name"]) for f in pkg["funcs"] if not f["recv"]} | {go_lower(t["name"]) for t in pkg["types"]} | \
+            {go_lower(h["name"]) for h in pkg["helpers"]} | {go_lower(n) for v in pkg["vars"] for sp in v["specs"] for n in sp["names"]}
+        akeys = {go_lower(k) for v in pkg["vars"] for sp in v["specs"] for x in sp["values"] if "map" in x for k, _ in x["map"]}
+        if go_lower(nm) in have or go_lower(nm) in akeys:
+            continue
+        _UNI_PARAMS[0] = False
+        f = gen_func(rng, nm, None, None)
+        f["file"] = 0
+        pkg["funcs"].append(f)
+    return pkg
+
+
 def gen_unicode(rng, safe=False):
     """a package with non-ASCII identifiers; at least one exported function whose first camel-case word ends
     in a multi-byte letter"""
